@@ -237,7 +237,12 @@ def verify(families, kinds, functions=None, tier="quick", jobs=16, skip=(), matc
         if r.get("havocs"):
             havocs[fq] = r["havocs"]
         stime += r.get("solver_time", 0.0)
-    return Result(obligations, functions_ok, list(ASSUMPTIONS),
+    assumes = list(ASSUMPTIONS)
+    for kind in kinds:
+        for a in getattr(an[kind], "ASSUMES", []):
+            if a not in assumes:
+                assumes.append(a)
+    return Result(obligations, functions_ok, assumes,
                   ["CPython/persistent C API table (cvc/capi.py)"], {"z3": stime}, errors, havocs)
 
 
